@@ -304,8 +304,8 @@ pub fn run_history_property<H: HB>(prop: &'static str, tier: Tier) -> Outcome {
         }
     }
     // E2: deep trees
-    let seed_alpha = alpha & !(A_EXTEND | A_APPEND | A_CLONE | A_CAPACITY | A_PAYLOAD) | A_APPEND;
-    let bin_sizes: Vec<usize> = if q { vec![7, 8, 9] } else { vec![7, 8, 9, 10, 11, 12, 13, 14, 15, 16] };
+    let seed_alpha = alpha & !(A_APPEND | A_CLONE | A_CAPACITY | A_PAYLOAD) | A_APPEND;
+    let bin_sizes: Vec<usize> = if q { vec![7, 8] } else { vec![7, 8, 9, 10, 11, 12, 13, 14, 15, 16] };
     for n in bin_sizes {
         let mut c = seeds_cfg(prop, n, &REL_BIN, seed_alpha);
         c.kinds = kinds.clone();
@@ -315,7 +315,7 @@ pub fn run_history_property<H: HB>(prop: &'static str, tier: Tier) -> Outcome {
             return out;
         }
     }
-    let seg_sizes: Vec<usize> = if q { vec![15, 16, 17] } else { vec![17, 18, 19, 20, 31, 32, 33] };
+    let seg_sizes: Vec<usize> = if q { vec![16, 17] } else { vec![17, 18, 19, 20, 31, 32, 33] };
     for n in seg_sizes {
         let mut c = seeds_cfg(prop, n, &REL_TERN, seed_alpha);
         c.kinds = kinds.clone();
@@ -324,7 +324,7 @@ pub fn run_history_property<H: HB>(prop: &'static str, tier: Tier) -> Outcome {
             return out;
         }
     }
-    let perm_sizes: Vec<usize> = if q { vec![4, 5, 6] } else { vec![5, 6, 7, 8] };
+    let perm_sizes: Vec<usize> = if q { vec![4, 5] } else { vec![5, 6, 7, 8] };
     for n in perm_sizes {
         let mut c = seeds_cfg(prop, n, &rel_perm(n), seed_alpha);
         c.kinds = kinds.clone();
@@ -514,8 +514,8 @@ pub fn run_c07<H: HB>(tier: Tier) -> Outcome {
         let (cases, viol) = crate::post::par_each(nodes.len(), th, |i| {
             let n = &nodes[i];
             let mm = model_of(&n.q.snap());
-            crate::crash::set_case(|| crate::post::node_case(prop, n, &uni, None, "extend-differential", String::new()));
-            crate::post::extend_differential(&n.q, &mm, &uni, &seqs, true).map_err(|(op, e)| crate::post::node_case(prop, n, &uni, Some(op), "extend-differential", e))
+            let oc = |op: &Op| crate::crash::set_case(|| crate::post::node_case(prop, n, &uni, Some(op.clone()), "extend-differential", String::new()));
+            crate::post::extend_differential(&n.q, &mm, &uni, &seqs, true, &oc).map_err(|(op, e)| crate::post::node_case(prop, n, &uni, Some(op), "extend-differential", e))
         });
         absorb_post(&mut out, "extend: every E1 state x every sequence x every legal size_hint, differential over hints", cases, viol, t0, json!({"receivers": nodes.len(), "sequences": seqs.len()}));
         if !out.violations.is_empty() {
@@ -580,8 +580,8 @@ pub fn run_c07<H: HB>(tier: Tier) -> Outcome {
         let (cases, viol) = crate::post::par_each(nodes.len(), th, |i| {
             let nd = &nodes[i];
             let mm = model_of(&nd.q.snap());
-            crate::crash::set_case(|| crate::post::node_case(prop, nd, &uni, None, "extend-differential", String::new()));
-            crate::post::extend_differential(&nd.q, &mm, &uni, &seqs, true).map_err(|(op, e)| crate::post::node_case(prop, nd, &uni, Some(op), "extend-differential", e))
+            let oc = |op: &Op| crate::crash::set_case(|| crate::post::node_case(prop, nd, &uni, Some(op.clone()), "extend-differential", String::new()));
+            crate::post::extend_differential(&nd.q, &mm, &uni, &seqs, true, &oc).map_err(|(op, e)| crate::post::node_case(prop, nd, &uni, Some(op), "extend-differential", e))
         });
         absorb_post(&mut out, &format!("extend on receivers of {n} elements: short and >= 17-pair sequences x every legal hint (push and rebuild strategies), differential"), cases, viol, t0, json!({"receivers": nodes.len(), "sequences": seqs.len()}));
         if !out.violations.is_empty() {
